@@ -4,7 +4,7 @@ from mats import *
 RULE = ("seeded random integer matrices (1-3 x 1-4 quick, up to 5 x 6 thorough; coefficients from {0,+-1,+-2,+-3,5,-7} and "
         "big-M shaped rows; boolean / integer / negative / degenerate boxes; infeasible, forcing and redundant rows); "
         "tighten_column_bounds, row_bounds, A_min, A_max, column_bounds and n_row_combinations compared with the model; oracle: full enumeration of the "
-        "box (<= 20000 points quick); non-trivial = some |coefficient| > 1 or a non-boolean column; distinct = distinct matrices")
+        "box (<= 20000 points quick), corner probes for larger boxes (a quarter of the cases use the library's default integer range -32768..32767 or one-sided variants); non-trivial = some |coefficient| > 1 or a non-boolean column; distinct = distinct matrices")
 ASSUMPTIONS = ["at least one row and one column (NumPy raises on an empty axis inside tighten_column_bounds)",
                "declared bounds within the library's default integer range (int16)",
                "float64 floor division is exact on the generated magnitudes (trusted base)"]
@@ -54,6 +54,19 @@ def do_case(ctx, inp):
                 ctx.case(inp, nontriv, tg); ctx.fail("row-combination-count-wrong", {"row": i, "reported": ncomb[i], "enumerated": cnt}); return
     else:
         tg.add("box-not-enumerated")
+        # corner probes: every corner of the box (each column at its lower or upper bound) that satisfies all rows is an
+        # in-bounds integer solution and must survive the tightening
+        if len(p["bnds"]) <= 8:
+            import itertools as _it
+            for x in _it.product(*[(lo, hi) for lo, hi in p["bnds"]]):
+                if all(dot(cs, x) >= b for b, cs in p["rows"]):
+                    tg.add("feasible-corner-probed")
+                    for j in range(len(x)):
+                        if not (lbs[j] <= x[j] <= ubs[j]):
+                            ctx.case(inp, nontriv, tg); ctx.fail("feasible-point-cut-off", {"column": j, "tightened": [lbs[j], ubs[j]], "solution": list(x)}); return
+            for j, (lo, hi) in enumerate(p["bnds"]):
+                if lbs[j] < lo or ubs[j] > hi:
+                    ctx.case(inp, nontriv, tg); ctx.fail("tightening-widens-declared-bounds", {"column": j, "tightened": [lbs[j], ubs[j]], "declared": [lo, hi]}); return
     ctx.case(inp, nontriv, tg)
     ctx.op({"op": "tighten", "p": p}, {"bnds": [[l, u] for l, u in zip(lbs, ubs)]})
     ctx.op({"op": "row_bounds", "p": p}, {"bnds": [[int(a), int(b)] for a, b in rb], "ncomb": ncomb, "amin": amin, "amax": amax})
@@ -62,4 +75,4 @@ def do_case(ctx, inp):
 def run(ctx):
     n = (400 if ctx.quick else 6000) * (3 if ctx.search else 1)
     for _ in range(n):
-        do_case(ctx, {"p": gen_poly(ctx.rng, ctx.quick, wide=ctx.rng.random() < 0.1)})
+        do_case(ctx, {"p": gen_poly(ctx.rng, ctx.quick, wide=ctx.rng.random() < 0.25)})
